@@ -425,6 +425,10 @@ def replay_obligation(reg, mod, rec):
             detail = 'replay stopped: %s' % e
         except Unsupported as e:
             detail = 'replay stopped (unsupported in concrete mode): %s' % e
+        except (ArithmeticError, TypeError, ValueError, KeyError, IndexError, AttributeError) as e:
+            # the specification text of a LATER clause could not be evaluated on these concrete values (e.g. a non-finite result of the real code
+            # entering spec arithmetic): the clauses evaluated so far stand
+            detail = 'replay stopped after the clauses evaluated so far: %s: %s' % (type(e).__name__, e)
     finally:
         sym._CTX[0] = None
         sym.REPLAY_TOL = old_tol
